@@ -306,10 +306,24 @@ pub fn run_c05(tier: Tier) -> ! {
     t.per_world.extend(t4.per_world);
     t.caps.extend(t4.caps);
     t.samples.extend(t4.samples.into_iter().take(2));
-    finish_w2(t, "C05", tier, vec!["states_where_station_used_the_token"])
+    // (iv) DP master under a real FDL station (re-execution, deviation-bounded)
+    let (runs, reqs) = c05_dp_under_fdl(tier);
+    t.states += runs;
+    t.transitions += reqs;
+    t.validated += runs;
+    t.per_world.push(json!({"world": "DpMaster under a real FdlActiveStation: all answer sequences with <=2 deviations from the conforming slave", "executions": runs, "requests_answered": reqs}));
+    finish_w2(t, "C05", tier, vec!["states_where_station_used_the_token", "c05_dp_under_fdl_reached_data_exchange"])
 }
 
 pub fn replay(v: &Value) {
+    if v["replay"]["world"] == "w2-dp" {
+        enable_formatting_logger();
+        let answers: Vec<u8> = v["replay"]["answers"].as_array().unwrap().iter().map(|x| x.as_u64().unwrap() as u8).collect();
+        let n = v["replay"]["peripherals"].as_u64().unwrap() as usize;
+        println!("answers: {:?}", answers.iter().map(|a| format!("{:?}", DP_ANSWERS[*a as usize])).collect::<Vec<_>>());
+        println!("result: {:?}", dp_under_fdl(n, &answers, false, answers.len() + 6));
+        return;
+    }
     if v["replay"]["world"] == "w4" {
         enable_formatting_logger();
         w4::replay(v);
@@ -319,4 +333,185 @@ pub fn replay(v: &Value) {
         }
         crate::w2::replay(v);
     }
+}
+
+// ------------------------------------------------------------------------------------------------
+// C05 (iv): the DP master under a real FDL station. `DpMaster` cannot be cloned, so this world is
+// explored by re-execution: every sequence of environment answers with at most `k` deviations from the
+// default (the reference slave's own reply) is run from scratch.
+
+#[derive(Clone, Copy, Debug, PartialEq, Eq)]
+pub enum DpAns {
+    /// the reference slave executes the request and answers
+    Slave,
+    Silence,
+    Sc,
+    /// a request-type telegram from the addressed station (echo of the function code)
+    RequestEcho,
+    /// a well-formed response from another station
+    ForeignSource,
+    /// a well-formed response of the addressed station to another master
+    ForeignDest,
+    /// a token telegram from the addressed station
+    Token,
+    /// a few undecodable bytes
+    Garbage,
+    /// the slave's reply cut off after 4 bytes
+    Truncated,
+    /// diagnostics reply with an extended block of length 0 (only meaningful for diagnostics requests)
+    DiagExtLen0,
+    /// response with an unusual status (RR)
+    StatusRr,
+    /// a data response 244 bytes long
+    Long,
+}
+
+pub const DP_ANSWERS: [DpAns; 12] = [DpAns::Slave, DpAns::Silence, DpAns::Sc, DpAns::RequestEcho, DpAns::ForeignSource, DpAns::ForeignDest, DpAns::Token, DpAns::Garbage, DpAns::Truncated, DpAns::DiagExtLen0, DpAns::StatusRr, DpAns::Long];
+
+/// Run one answer sequence (index k of `answers` applies to the k-th acknowledged request of the station;
+/// beyond the list: default). Returns Err(panic) or Ok(number of requests seen).
+pub fn dp_under_fdl(n_periph: usize, answers: &[u8], with_member: bool, max_requests: usize) -> Result<usize, PanicInfo> {
+    use crate::bus::{BusSim, BIT};
+    use crate::dprig::*;
+    use profirust::fdl::FdlActiveStation;
+    use profirust::time::Instant;
+    let ps = [PeriphCfg::simple(9, 2, 1), PeriphCfg::simple(11, 0, 2), PeriphCfg::simple(4, 1, 0)];
+    let cfg = RigCfg::basic(ps[..n_periph].to_vec());
+    let (mut dp, _handles) = make_master(&cfg);
+    let params = profirust::fdl::ParametersBuilder::new(2, profirust::Baudrate::B500000).slot_bits(300).highest_station_address(4).gap_wait_rotations(10).build();
+    let slot_us = params.slot_time().total_micros() as i64;
+    let mut fdl = FdlActiveStation::new(params);
+    fdl.set_online();
+    let mut slaves: Vec<RefSlave> = cfg.periphs.iter().map(RefSlave::new).collect();
+    let mut bus = BusSim::new(500000, 2);
+    bus.retire_port(1);
+    let p = slot_us / 8;
+    let mut now = 0i64;
+    let mut seen = 0usize;
+    let mut requests = 0usize;
+    let mut env_queue: Vec<(i64, Vec<u8>)> = vec![];
+    let _ = with_member;
+    let horizon = slot_us * 4000;
+    while now < horizon && requests < max_requests {
+        env_queue.sort_by_key(|e| e.0);
+        while let Some((t, _)) = env_queue.first() {
+            if *t > now + p {
+                break;
+            }
+            let (t, bytes) = env_queue.remove(0);
+            let t = t.max(bus.quiet_from_us() + 1).max(now);
+            bus.transmit(1, t, &bytes);
+        }
+        now += p;
+        let t = Instant::from_micros(now);
+        let r = catch(|| {
+            let mut port = bus.port(0);
+            fdl.poll(t, &mut port, &mut dp)
+        });
+        if let Err(pn) = r {
+            return Err(pn);
+        }
+        let _ = dp.take_last_events();
+        while seen < bus.trace.len() {
+            let tx = bus.trace[seen].clone();
+            seen += 1;
+            if tx.sender != 0 {
+                continue;
+            }
+            let f = match rc::decode(&tx.bytes) {
+                rc::RDec::Frame(f, _) => f,
+                _ => continue,
+            };
+            if !f.req_expects_reply() || f.is_fdl_status_req() {
+                continue;
+            }
+            let da = f.da().unwrap();
+            let si = match slaves.iter().position(|s| s.addr == da) {
+                Some(i) => i,
+                None => continue,
+            };
+            let ans = DP_ANSWERS[*answers.get(requests).unwrap_or(&0) as usize % DP_ANSWERS.len()];
+            requests += 1;
+            let genuine = if ans != DpAns::Silence { slaves[si].handle(&f) } else { None };
+            let t11 = bus.us_ceil(tx.end + 11 * BIT) + 1;
+            let d = |da: u8, sa: u8, fc: u8, dsap: Option<u8>, ssap: Option<u8>, du: Vec<u8>| rc::encode(&rc::RFrame::Data { da, sa, dsap, ssap, fc, du });
+            let bytes: Option<Vec<u8>> = match ans {
+                DpAns::Slave => genuine,
+                DpAns::Silence => None,
+                DpAns::Sc => Some(vec![rc::SC]),
+                DpAns::RequestEcho => Some(d(2, da, f.fc().unwrap(), None, None, vec![])),
+                DpAns::ForeignSource => Some(d(2, 77, 0x08, Some(62), Some(60), vec![0, 4, 0, 2, 0x13, 0x37])),
+                DpAns::ForeignDest => Some(d(3, da, 0x08, None, None, vec![1, 2])),
+                DpAns::Token => Some(rc::encode(&rc::token(2, da))),
+                DpAns::Garbage => Some(vec![0x00, 0xFF, 0x68]),
+                DpAns::Truncated => genuine.map(|g| g[..g.len().min(4)].to_vec()),
+                DpAns::DiagExtLen0 => Some(d(2, da, 0x08, Some(62), Some(60), vec![0x08, 0x04, 0, 2, 0x13, 0x37, 0x40])),
+                DpAns::StatusRr => Some(d(2, da, 0x02, None, None, vec![])),
+                DpAns::Long => Some(d(2, da, 0x08, None, None, vec![0x5A; 244])),
+            };
+            if let Some(b) = bytes {
+                env_queue.push((t11, b));
+            }
+        }
+        if bus.trace.len() > 1024 {
+            bus.trace.clear();
+            seen = 0;
+        }
+    }
+    Ok(requests)
+}
+
+/// all answer sequences of length `len` with at most `k` non-default entries
+pub fn deviation_sequences(len: usize, k: usize, alphabet: usize) -> Vec<Vec<u8>> {
+    let mut out = vec![vec![0u8; 0]];
+    fn rec(pos: usize, len: usize, left: usize, alphabet: usize, cur: &mut Vec<u8>, out: &mut Vec<Vec<u8>>) {
+        if pos == len || left == 0 {
+            return;
+        }
+        for p in pos..len {
+            for a in 1..alphabet {
+                let mut n = cur.clone();
+                n.resize(p, 0);
+                n.push(a as u8);
+                out.push(n.clone());
+                rec(p + 1, len, left - 1, alphabet, &mut n, out);
+            }
+        }
+    }
+    rec(0, len, k, alphabet, &mut vec![], &mut out);
+    out
+}
+
+pub fn c05_dp_under_fdl(tier: Tier) -> (u64, u64) {
+    use rayon::prelude::*;
+    use std::sync::atomic::{AtomicU64, Ordering};
+    let runs = AtomicU64::new(0);
+    let reqs = AtomicU64::new(0);
+    for n_periph in [1usize, 2] {
+        let len = if n_periph == 1 { tier.pick(9, 12) } else { tier.pick(10, 14) };
+        let k = if n_periph == 1 { 2 } else { tier.pick(1, 2) };
+        let seqs = deviation_sequences(len, k, DP_ANSWERS.len());
+        seqs.par_iter().for_each(|s| {
+            if ctx().should_stop() {
+                return;
+            }
+            let desc = json!({"world": "w2-dp", "peripherals": n_periph, "answers": s});
+            let d2 = desc.clone();
+            let r = guarded(move || d2.clone(), || dp_under_fdl(n_periph, s, false, len + 6));
+            runs.fetch_add(1, Ordering::Relaxed);
+            match r {
+                Ok(n) => {
+                    reqs.fetch_add(n as u64, Ordering::Relaxed);
+                    if n >= 5 {
+                        ctx().witness("c05_dp_under_fdl_reached_data_exchange");
+                    }
+                }
+                Err(p) => {
+                    let names: Vec<String> = s.iter().map(|a| format!("{:?}", DP_ANSWERS[*a as usize])).collect();
+                    ctx().violation(format!("c05.dp_under_fdl.{}", p.sig()), format!("panic in poll() with the DP master attached: {}:{} {} [peripherals {n_periph}, answers {:?}]", p.file, p.line, p.msg, names), desc, s.len() as u64);
+                }
+            }
+        });
+    }
+    (runs.load(Ordering::Relaxed), reqs.load(Ordering::Relaxed))
 }
